@@ -471,8 +471,12 @@ pub fn lane_skip(seed: u64) -> Vec<Scenario> {
         InlineDefaultValueNoSkip,
         /// the custom code sits next to other keys of the same inline configuration
         CustomInlineWithOtherKeys,
+        /// front-matter says 33, the test case exits with the built-in 80: no skip
+        EightyButCustomDefaults,
     }
-    for cram in [false, true] {
+    for mode in ["md", "cram", "md-compat"] {
+        let cram = mode != "md";
+        let compat = mode == "md-compat";
         for how in [
             How::Default80,
             How::CustomDefaults,
@@ -485,8 +489,13 @@ pub fn lane_skip(seed: u64) -> Vec<Scenario> {
             How::CustomInlineWithOtherKeys,
             How::InlineDefaultValueOverCustomDefaults,
             How::InlineDefaultValueNoSkip,
+            How::EightyButCustomDefaults,
         ] {
-            if cram && how != How::Default80 {
+            if mode == "cram" && how != How::Default80 {
+                continue;
+            }
+            // single-script mode has no per-test settings: front-matter defaults only
+            if compat && !matches!(how, How::Default80 | How::CustomDefaults | How::EightyButCustomDefaults) {
                 continue;
             }
             for pos in 0..3usize {
@@ -494,7 +503,7 @@ pub fn lane_skip(seed: u64) -> Vec<Scenario> {
                     for other in ["pass", "fail", "skip"] {
                         let mut sim = base_sim(g.rng.next_u64());
                         let code = match how {
-                            How::Default80 | How::EightyButCustom | How::InlineDefaultValueOverCustomDefaults => 80,
+                            How::Default80 | How::EightyButCustom | How::InlineDefaultValueOverCustomDefaults | How::EightyButCustomDefaults => 80,
                             How::LayeredDefaultsCodeNoSkip => 99,
                             How::CustomZero => 0,
                             _ => 33,
@@ -543,9 +552,9 @@ pub fn lane_skip(seed: u64) -> Vec<Scenario> {
                             };
                             tests.push(g.test(&plan, &mut sim.programs));
                         }
-                        let (f, ext) = if cram { (Format::Cram, "t") } else { (Format::Md, "md") };
+                        let (f, ext) = if mode == "cram" { (Format::Cram, "t") } else { (Format::Md, "md") };
                         let mut a = doc(&format!("a/skipper.{}", ext), f, tests);
-                        if how == How::CustomDefaults {
+                        if how == How::CustomDefaults || how == How::EightyButCustomDefaults {
                             a.defaults.skip_code = Some(33);
                         }
                         if matches!(how, How::LayeredInlineWins | How::LayeredDefaultsCodeNoSkip) {
@@ -567,11 +576,11 @@ pub fn lane_skip(seed: u64) -> Vec<Scenario> {
                         let b = doc(&format!("b/other.{}", if pos % 2 == 0 { "md" } else { "t" }), if pos % 2 == 0 { Format::Md } else { Format::Cram }, bt);
                         let docs = if pos == 1 { vec![b, a] } else { vec![a, b] };
                         let mut sc = Scenario {
-                            lane: format!("skip/{}/{:?}/pos{}/exp{:?}/other-{}", if cram { "cram" } else { "md" }, how, pos, expected, other),
+                            lane: format!("skip/{}/{:?}/pos{}/exp{:?}/other-{}", mode, how, pos, expected, other),
                             tier: Tier::Cli,
                             script_mode: false,
                             docs,
-                            cli: Cli::default(),
+                            cli: Cli { cram_compat: compat, ..Default::default() },
                             sim,
                             pretty: false,
                             check: all_checks(),
@@ -1274,7 +1283,7 @@ pub fn lane_stream_layers(seed: u64) -> Vec<Scenario> {
 pub fn lane_cram_sizes(seed: u64) -> Vec<Scenario> {
     let mut out = vec![];
     let mut g = G::new(seed ^ 0xc2a3);
-    for n in [1usize, 2, 9, 10, 11, 13] {
+    for (n, compact) in [(1usize, false), (2, false), (9, false), (10, false), (11, false), (13, false), (2, true), (4, true), (10, true), (13, true)] {
         for special in ["all-pass", "fail-last", "fail-first", "code-mid", "skip-last", "exit-mid"] {
             let mut sim = base_sim(g.rng.next_u64());
             let mut tests = vec![];
@@ -1293,10 +1302,13 @@ pub fn lane_cram_sizes(seed: u64) -> Vec<Scenario> {
                 };
                 tests.push(g.test(&plan, &mut sim.programs));
             }
-            let d = doc(&format!("sizes/n{}.t", n), Format::Cram, tests);
+            let mut d = doc(&format!("sizes/n{}.t", n), Format::Cram, tests);
+            // every other one as ONE block: a title, then `$` lines only (the last command of the
+            // block often has no output at all)
+            d.compact = compact;
             let other = doc("sizes/other.md", Format::Md, vec![g.test(&Plan::new(Fate::Pass), &mut sim.programs)]);
             let mut sc = Scenario {
-                lane: format!("cram-sizes/{}/{}", n, special),
+                lane: format!("cram-sizes/{}/{}{}", n, special, if compact { "/one-block" } else { "" }),
                 tier: Tier::Cli,
                 script_mode: false,
                 docs: vec![d, other],
